@@ -15,6 +15,7 @@ import Driver.C18
 import Driver.C19
 import Driver.C06
 import Driver.C17
+import Driver.C02
 open AITB
 
 def handleLine (line : String) : String :=
@@ -38,6 +39,7 @@ def handleLine (line : String) : String :=
   | "C19" :: rest => DrvC19.handle rest
   | "C06" :: rest => DrvC06.handle rest
   | "C17" :: rest => DrvC17.handle rest
+  | "C02" :: rest => DrvC02.handle rest
   | _ => "bad-op"
 
 partial def loop (h : IO.FS.Stream) (out : IO.FS.Stream) : IO Unit := do
